@@ -80,3 +80,22 @@ Example wrong_prefix_trace :
   run (cwrap reveal0 mark0 hs0 tbl0 R0) cap8k D0 3 ts0 wrong_prefix =
   [ASetDeadline 6000; ARead 100 64; ASleep 100 5900; AReturn 6000].
 Proof. vm_compute. reflexivity. Qed.
+
+(* the boundary: the same probe, but the peer sends a FIN 1.5 s after the start - the handler
+   returns at that instant (and would do so whatever the probe contained) *)
+Definition probe1_short : list (N * bytes) := [(100%N, GET ++ garbage 17 40); (900%N, garbage 18 30)].
+Lemma probe1_short_no_tag : ~ presents_tag reveal0 mark0 tbl0 R0 (stream_of probe1_short).
+Proof. apply presents_tagb_sound. vm_compute. reflexivity. Qed.
+Example fin_reaction :
+  let tr := run_end (cwrap reveal0 mark0 hs0 tbl0 R0) cap8k D0 3 ts0 probe1_short 1500 REof in
+  only_reads_until_peer_close D0 1500 REof tr /\ forall tau, read_by tr tau = arrived_by probe1_short tau.
+Proof. apply C03_peer_close_answered_at_once; [exact tbl0_wf|cbn; lia|reflexivity|exact probe1_short_no_tag]. Qed.
+Example fin_trace :
+  run_end (cwrap reveal0 mark0 hs0 tbl0 R0) cap8k D0 3 ts0 probe1_short 1500 REof =
+  [ASetDeadline 6000; ARead 100 44; ARead 900 30; AReadErr 1500 REof; AReturn 1500].
+Proof. vm_compute. reflexivity. Qed.
+(* with a valid tag under the wrong prefix the handler is asleep and does not notice the FIN *)
+Example fin_unnoticed_while_asleep :
+  run_end (cwrap reveal0 mark0 hs0 tbl0 R0) cap8k D0 3 ts0 wrong_prefix 1500 REof =
+  [ASetDeadline 6000; ARead 100 64; ASleep 100 5900; AReturn 6000].
+Proof. vm_compute. reflexivity. Qed.
